@@ -73,7 +73,7 @@ def monitors_e2e(o):
         out.append(("close-returns", "repeated Close() returned class %s" % o.get("close2_x")))
     if ev in ("close", "fatal", "simul") and o.get("close_p") not in ("ok",):
         out.append(("close-returns", "peer Close() returned class %s" % o.get("close_p")))
-    closing = ev in ("close", "simul") or (ev == "fatal" and o["accepted"])
+    closing = ev == "close" or (ev == "simul" and o["delivered"]) or (ev == "fatal" and o["accepted"])
     # blocked calls unblocked with closed/EOF class errors
     if closing:
         if o["hs_pend_x"] and ev != "fatal":
@@ -127,7 +127,7 @@ def monitors_e2e(o):
         if o["closed_x"]:
             out.append(("deadline", "deadline closed the connection"))
     # calls after Close
-    if ev in ("close", "simul") or (ev == "fatal" and o["accepted"]):
+    if closing:
         if o["closed_x"] and o.get("wr_aft_x") != "closed":
             out.append(("after", "Write after Close returned class %s" % o.get("wr_aft_x")))
         if o["est_x"] and o.get("rd_aft_x") not in ("eof", "", None):
@@ -149,7 +149,8 @@ def monitors_stress(o):
         if c != "ok":
             out.append(("close-returns", "Close() returned class %s" % c))
     for c in o.get("read_end") or []:
-        if c not in CLOSE_CLASS:
+        # "gaveup": the harness reader spent its retries on an expired read deadline (never blocked)
+        if c not in CLOSE_CLASS | {"gaveup"}:
             out.append(("unblock", "Read ended with class %s" % c))
     for c in o.get("write_end") or []:
         if c == "canceled" and is13(o["variant"]):
@@ -187,8 +188,15 @@ def model_case(o):
             return None
         rd_pend = wr_pend = False
     if ev == "fatal":
-        consumed_in_negotiation = neg and o["hs_x"] == "alert"
-        if not o["accepted"] and not consumed_in_negotiation:
+        consumed_in_negotiation = neg and o["hs_x"] == "alert" and not o["accepted"]
+        accepted = o["accepted"]
+        if not accepted and o["closed_x"] and sc.get("wblock"):
+            # the read loop was itself waiting behind the blocked socket write; the alert was
+            # accepted once the harness unblocked the socket (after wr_x had been sampled)
+            accepted, wr_pend = True, False
+        if accepted and neg:
+            neg = False   # in-flight datagrams finished the version negotiation before the alert was read
+        if not accepted and not consumed_in_negotiation:
             # the alert was dropped or queued: the harness's later Close() is the first close
             evn = 6
             est = o["est_x1"]
@@ -196,11 +204,13 @@ def model_case(o):
             if o["hs_x"].startswith("late:"):
                 hs_c = code(o["hs_x"][5:])
             rd_pend = wr_pend = False
-        elif o["accepted"] and hs_pend and o["hs_x"] == "ok":
+        elif accepted and hs_pend and o["hs_x"] == "ok":
             # the handshake completed before the alert was processed
             est, hs_pend = True, False
     if ev == "nohs":
-        hs_pend, est, neg = True, False, False
+        hs_pend, est, neg = False, False, False   # the Handshake call comes after the Close (ev 5)
+    if ev == "hsctx":
+        rd_pend = wr_pend = False   # a cancelled Handshake context does not concern Read/Write
     if ev in ("deadline", "hsctx") and hs_pend and o["hs_x"].startswith("late:"):
         hs_c = 9
     closed_x = o["closed_x"]
@@ -237,6 +247,39 @@ def last_begin(rows):
         elif r.get("kind") in ("c16", "stress"):
             pend = None
     return pend
+
+
+def replay(chk, path):
+    """bin/check C16 --replay <file>: rerun the single scenario of a stored finding"""
+    import json
+    with open(path) as f:
+        body = json.load(f)
+    sc = (body.get("replay") or {}).get("scenario")
+    if not sc:
+        chk.broken("replay file has no scenario (stress / race findings are rerun with bin/check C16)", path)
+        chk.finish(level="proof", rule="replay")
+    outp = vlib.out_path("c16replay")
+    race = "-race" in ((body.get("replay") or {}).get("rerun") or "")
+    rc, o = vlib.go_test(".", "^TestVerifC16E2E$", {"VERIF_OUT": outp, "VERIF_C16_ONLY": sc_key(sc),
+                                                     "VERIF_SEED": chk.seed, "VERIF_TIER": chk.tier},
+                         timeout=300, race=race, tags=["c16"])
+    rows = [r for r in vlib.read_jsonl(outp) if r.get("kind") == "c16"]
+    vlib.cleanup(outp)
+    if rc != 0 or not rows:
+        chk.broken("replay run failed", o)
+    for r in rows:
+        for kind, what in monitors_e2e(r):
+            if kind == "cn-twice":
+                chk.finding(SITE_CN2, SIG_CN2, "one endpoint put two close_notify records on the wire: " + what,
+                            replay_of(r, chk, race))
+            elif kind == "write13":
+                chk.finding(SITE_W13, SIG_W13, what, replay_of(r, chk, race))
+            else:
+                chk.finding("conn.go lifecycle (Close / read loop / HandshakeContext)",
+                            {"monitor": kind, "event": r["sc"]["event"], "variant": r["sc"]["variant"]}, what,
+                            replay_of(r, chk, race))
+        chk.count("replay", 1, [sc_key(r["sc"])])
+    chk.finish(level="proof", rule="replay of one scenario")
 
 
 def run(chk):
